@@ -32,7 +32,7 @@ use lightning::chain::chaininterface::ConfirmationTarget;
 use lightning::chain::chainmonitor::Persist;
 use lightning::chain::channelmonitor::{ChannelMonitor, ChannelMonitorUpdate};
 use lightning::chain::ChannelMonitorUpdateStatus;
-use lightning::events::{ClosureReason, Event};
+use lightning::events::{ClosureReason, Event, EventsProvider};
 use lightning::ln::channelmanager::PaymentId;
 use lightning::ln::functional_test_utils::*;
 use lightning::ln::msgs::{self, BaseMessageHandler, ChannelMessageHandler, ErrorAction, MessageSendEvent};
@@ -288,6 +288,12 @@ struct Carry {
 	errs: Vec<String>,
 	claim_ops: HashSet<String>,
 	step: usize,
+	evhold: Vec<bool>,
+	scripted_fc: Vec<String>,
+	// post-crash: event kinds whose handling fails (handler returns Err(ReplayEvent)) and how often still
+	evfail: Vec<String>,
+	evfail_left: usize,
+	replayed: Vec<(usize, String, String)>,
 }
 
 struct World<'w, 'a, 'b, 'c> {
@@ -443,9 +449,39 @@ impl<'w, 'a, 'b, 'c> World<'w, 'a, 'b, 'c> {
 					activity = true;
 					self.handle_msg_event(n, ev);
 				}
-				for ev in self.nodes[n].node.get_and_clear_pending_events() {
-					activity = true;
-					self.handle_event(n, ev);
+				if !self.c.evhold[n] {
+					if self.crashed == Some(n) && self.c.evfail_left > 0 && !self.c.evfail.is_empty() {
+						// the application's handler fails for some events: they must stay queued and be
+						// delivered again
+						let got: std::cell::RefCell<Vec<Event>> = std::cell::RefCell::new(Vec::new());
+						let refused: std::cell::RefCell<Vec<String>> = std::cell::RefCell::new(Vec::new());
+						let kinds = self.c.evfail.clone();
+						let left = std::cell::Cell::new(self.c.evfail_left);
+						self.nodes[n].node.process_pending_events(&|ev: Event| {
+							let dbg = format!("{:?}", ev);
+							let name: String = dbg.chars().take_while(|c| c.is_alphanumeric()).collect();
+							if left.get() > 0 && kinds.iter().any(|k| *k == name) {
+								left.set(left.get() - 1);
+								refused.borrow_mut().push(name);
+								return Err(lightning::events::ReplayEvent());
+							}
+							got.borrow_mut().push(ev);
+							Ok(())
+						});
+						self.c.evfail_left = left.get();
+						for name in refused.into_inner() {
+							self.c.replayed.push((n, name, String::new()));
+						}
+						for ev in got.into_inner() {
+							activity = true;
+							self.handle_event(n, ev);
+						}
+					} else {
+						for ev in self.nodes[n].node.get_and_clear_pending_events() {
+							activity = true;
+							self.handle_event(n, ev);
+						}
+					}
 				}
 				let _ = self.nodes[n].chain_monitor.chain_monitor.get_and_clear_pending_msg_events();
 				let _ = self.nodes[n].chain_monitor.chain_monitor.get_and_clear_pending_events();
@@ -467,7 +503,8 @@ impl<'w, 'a, 'b, 'c> World<'w, 'a, 'b, 'c> {
 		if a == b || a >= nn || b >= nn {
 			return false;
 		}
-		let path_nodes: Vec<usize> = if (a == 0 && b == 2) || (a == 2 && b == 0) { vec![1, b] } else { vec![b] };
+		// star topology: node 1 is the hub
+		let path_nodes: Vec<usize> = if a == 1 || b == 1 { vec![b] } else { vec![1, b] };
 		let mut prev = a;
 		let mut hops = Vec::new();
 		let mut first_chan = None;
@@ -611,6 +648,39 @@ impl<'w, 'a, 'b, 'c> World<'w, 'a, 'b, 'c> {
 				}
 				true
 			},
+			"evhold" => {
+				let n = num(1) % nn;
+				let on = t.get(2) == Some(&"on");
+				if self.c.evhold[n] == on {
+					return false;
+				}
+				self.c.evhold[n] = on;
+				true
+			},
+			"events" => {
+				let n = num(1) % nn;
+				let evs = self.nodes[n].node.get_and_clear_pending_events();
+				let any = !evs.is_empty();
+				for ev in evs {
+					self.handle_event(n, ev);
+				}
+				any
+			},
+			"fc" => {
+				let n = num(1) % nn;
+				if self.c.chans[n].is_empty() {
+					return false;
+				}
+				let (chan, peer) = self.c.chans[n][num(2) % self.c.chans[n].len()];
+				if self.c.scripted_fc.contains(&cid(&chan)) {
+					return false;
+				}
+				let ok = self.nodes[n].node.force_close_broadcasting_latest_txn(&chan, &self.ids[peer], "harness".to_string()).is_ok();
+				if ok {
+					self.c.scripted_fc.push(cid(&chan));
+				}
+				ok
+			},
 			"disc" => {
 				let (a, b) = (num(1) % nn, num(2) % nn);
 				if a == b || !self.c.connected.contains(&(a.min(b), a.max(b))) {
@@ -709,11 +779,12 @@ impl<'w, 'a, 'b, 'c> World<'w, 'a, 'b, 'c> {
 		for _round in 0..400 {
 			let mut sub: Vec<String> = Vec::new();
 			for n in 0..nn {
+				sub.push(format!("evhold {} off", n));
 				sub.push(format!("completeall {}", n));
 			}
-			for a in 0..nn {
-				for b in (a + 1)..nn {
-					sub.push(format!("reconn {} {}", a, b));
+			for b in 0..nn {
+				if b != 1 {
+					sub.push(format!("reconn {} {}", 1.min(b), 1.max(b)));
 				}
 			}
 			for a in 0..nn {
@@ -867,9 +938,19 @@ fn run_trial(line: &str) {
 	let lag: usize = param(&head, "lag").and_then(|v| v.parse().ok()).unwrap_or(0);
 	let mon_mode = param(&head, "mon").unwrap_or("max").to_string();
 	let pre = param(&head, "pre") == Some("1");
-	let recrash = param(&head, "recrash") == Some("1");
+	// recrash: 0 none; 1 crash again with the freshly serialized manager; 2 crash again before the manager was
+	// rewritten (the same, now even staler, manager bytes with the monitors as they are by then)
+	let recrash_mode: usize = param(&head, "recrash").and_then(|v| v.parse().ok()).unwrap_or(0);
+	let recrash = recrash_mode > 0;
+	let path_mode = param(&head, "path").unwrap_or("default").to_string();
+	let evfail: Vec<String> = param(&head, "evfail").map(|v| v.split(',').filter(|x| !x.is_empty()).map(|x| x.to_string()).collect()).unwrap_or_default();
+	vh::set_reconstruct_manager_from_monitors(match path_mode.as_str() {
+		"legacy" => Some(false),
+		"recon" => Some(true),
+		_ => None,
+	});
 	let ops: Vec<String> = parts.filter(|s| !s.is_empty()).map(|s| s.to_string()).collect();
-	let nn = 3;
+	let nn = 4;
 	let k = k.min(ops.len());
 
 	phase("setup");
@@ -896,14 +977,16 @@ fn run_trial(line: &str) {
 	let ids: Vec<PublicKey> = nodes.iter().map(|n| n.node.get_our_node_id()).collect();
 	let c01 = create_announced_chan_between_nodes_with_value(&nodes, 0, 1, 1_000_000, 400_000_000).2;
 	let c12 = create_announced_chan_between_nodes_with_value(&nodes, 1, 2, 1_000_000, 400_000_000).2;
+	let c13 = create_announced_chan_between_nodes_with_value(&nodes, 1, 3, 1_000_000, 400_000_000).2;
 	let mut carry = Carry::default();
-	carry.chans = vec![vec![(c01, 1)], vec![(c01, 0), (c12, 2)], vec![(c12, 1)]];
+	carry.chans = vec![vec![(c01, 1)], vec![(c01, 0), (c12, 2), (c13, 3)], vec![(c12, 1)], vec![(c13, 1)]];
+	carry.evhold = vec![false; nn];
 	carry.claimables = (0..nn).map(|_| Vec::new()).collect();
 	carry.claiming = (0..nn).map(|_| Vec::new()).collect();
 	carry.bcast_seen = (0..nn).map(|n| nodes[n].tx_broadcaster.txn_broadcasted.lock().unwrap().len()).collect();
-	for a in 0..nn {
-		for b in (a + 1)..nn {
-			carry.connected.insert((a, b));
+	for b in 0..nn {
+		if b != 1 {
+			carry.connected.insert((1.min(b), 1.max(b)));
 		}
 	}
 	for n in nodes.iter() {
@@ -1009,8 +1092,8 @@ fn run_trial(line: &str) {
 		})
 		.collect();
 	partial(format!(
-		"\"crash\":{},\"k\":{},\"lag\":{},\"mon\":{},\"pre\":{},\"recrash\":{},\"disk\":{},\"snap\":{},\"payments\":{},\"prefix_errs\":{},\"prefix_closed\":{}",
-		x, k, lag, js(&mon_mode), use_pre, recrash, jarr(&mon_range), jarr(&snap_json), jarr(&pays_json),
+		"\"crash\":{},\"k\":{},\"lag\":{},\"mon\":{},\"pre\":{},\"recrash\":{},\"recrash_mode\":{},\"path\":{},\"evfail\":{},\"disk\":{},\"snap\":{},\"payments\":{},\"prefix_errs\":{},\"prefix_closed\":{}",
+		x, k, lag, js(&mon_mode), use_pre, recrash, recrash_mode, js(&path_mode), jarr(&evfail.iter().map(|e| js(e)).collect::<Vec<_>>()), jarr(&mon_range), jarr(&snap_json), jarr(&pays_json),
 		jarr(&carry.errs.iter().map(|e| js(e)).collect::<Vec<_>>()), carry.closed.len()
 	));
 	let prefix_events = carry.events.len();
@@ -1037,11 +1120,19 @@ fn run_trial(line: &str) {
 	}
 	partial(",\"read_ok\":true".to_string());
 
-	// ---- first recovery step
+	// ---- first recovery step (the application's event handler may fail for some event kinds)
 	phase("recover");
+	carry.evfail = evfail.clone();
+	carry.evfail_left = if evfail.is_empty() { 0 } else { 6 };
 	{
 		let mut w = World { nodes: &nodes, persisters: &persisters, ids: ids.clone(), c: carry, crashed: Some(x) };
 		w.drain();
+		if !recrash {
+			// without a second crash the handler recovers after a few more rounds
+			w.drain();
+			w.c.evfail_left = 0;
+			w.drain();
+		}
 		carry = w.c.clone();
 	}
 	let after_first: Vec<String> = carry.chans[x]
@@ -1071,7 +1162,7 @@ fn run_trial(line: &str) {
 
 	if recrash {
 		phase("recrash");
-		let mgr2 = nodes[x].node.encode();
+		let mgr2 = if recrash_mode == 2 { mgr_bytes.clone() } else { nodes[x].node.encode() };
 		let mut mons2: Vec<Vec<u8>> = Vec::new();
 		for (c, _) in carry.chans[x].iter() {
 			if let Ok(m) = nodes[x].chain_monitor.chain_monitor.get_monitor(*c) {
@@ -1083,11 +1174,12 @@ fn run_trial(line: &str) {
 			reload_node!(nodes[x], &mgr2, &refs, persister_r2, chain_monitor_r2, node_r2);
 		}
 		partial(",\"reread_ok\":true".to_string());
+		carry.evfail_left = 0;
 	}
 
 	// ---- reconnect and run to quiescence
 	phase("settle");
-	let (closed, events, errs, claim_ops, final_chans, unresolved);
+	let (closed, events, errs, claim_ops, final_chans, unresolved, scripted_fc, replayed);
 	{
 		let mut w = World { nodes: &nodes, persisters: &persisters, ids: ids.clone(), c: carry, crashed: Some(x) };
 		w.drain();
@@ -1103,6 +1195,8 @@ fn run_trial(line: &str) {
 		events = w.c.events[prefix_events..].to_vec();
 		errs = w.c.errs.clone();
 		claim_ops = w.c.claim_ops.clone();
+		scripted_fc = w.c.scripted_fc.clone();
+		replayed = w.c.replayed.clone();
 		let mut fc = Vec::new();
 		for n in 0..nn {
 			for d in nodes[n].node.list_channels() {
@@ -1119,7 +1213,9 @@ fn run_trial(line: &str) {
 		std::mem::forget(w);
 	}
 	partial(format!(
-		",\"closed\":{},\"events_after\":{},\"expect_events\":{},\"errs\":{},\"claim_ops\":{},\"final_chans\":{},\"queued\":{}",
+		",\"scripted_fc\":{},\"handler_refused\":{},\"closed\":{},\"events_after\":{},\"expect_events\":{},\"errs\":{},\"claim_ops\":{},\"final_chans\":{},\"queued\":{}",
+		jarr(&scripted_fc.iter().map(|c| js(c)).collect::<Vec<_>>()),
+		jarr(&replayed.iter().map(|(n, a, _)| jarr(&[n.to_string(), js(a)])).collect::<Vec<_>>()),
 		jarr(&closed.iter().map(|(n, c, r)| jarr(&[n.to_string(), js(c), js(r)])).collect::<Vec<_>>()),
 		jarr(&events.iter().map(|(n, a, b)| jarr(&[n.to_string(), js(a), js(b)])).collect::<Vec<_>>()),
 		jarr(&expect_events.iter().map(|(a, b)| jarr(&[js(a), js(b)])).collect::<Vec<_>>()),
